@@ -1,6 +1,7 @@
 """C06 — from_repr(d) is Some(V) iff d is the discriminant rustc gives enabled variant V."""
 import itertools
 from vlib.defs import Item, Variant, Field, render_item, DISABLED
+from vlib import gen as G
 from vlib.run import Corpus
 from vlib import render as RR
 
@@ -158,6 +159,13 @@ def build_corpus(tier, rng):
     for rp, first, n in (("i8", -100, 200), ("i8", -128, 256), ("u8", 0, 256), ("i16", -150, 300), ("u8", 56, 200)):
         vs = [mk_variant("W%d" % q, "unit", False, first if q == 0 else None) for q in range(n)]
         add(Item("E", vs, repr=rp), "wide-run")
+    # the options of OTHER derives on the variants (default_with on payloads, default, valued ascii_case_insensitive, props ... around
+    # `disabled`): FromRepr reads `disabled` only, payloads are Default::default()
+    for j, it in enumerate(G.foreign_option_items(rng, 90 if thorough else 30, tag="P")):
+        it.repr = [None, "u8", "i16", "u32", "i64"][j % 5]
+        if j % 3 == 0 and it.variants and it.repr is not None:        # (E0732: explicit discriminants next to payloads need an integer repr)
+            it.variants[len(it.variants) // 2].discr = 20 + j
+        add(it, "foreign-options")
     # no variant carries data, but the enum has CONST parameters: from_repr is still a const fn
     for rp in (None, "u8", "i32"):
         add(Item("E", [mk_variant("Empty", "unit", False), mk_variant("Taken", "unit", False, 4), mk_variant("Off", "unit", True), mk_variant("Locked", "unit", False)],
